@@ -36,7 +36,7 @@ pub const ENDINGS: [&str; 9] = [
 /// kind 6 has two flavours: after the invalid header the client closes, or (sel odd) stays connected and silent -
 /// the server must end the connection on its own and return the slot
 
-pub const RULE: &str = "proptest sequences of connection lifecycles against an in-process server with connection limit 1..4 (2-worker runtime, and current-thread runtime with 1..3 listener threads sharing the server on one port as in memcrsd's current-thread mode): Open steps (up to limit+3 connections open at once) and End steps ending a selected open connection by client close after a complete exchange, quit, quitq, close in the middle of a header, close in the middle of a body, abortive reset, protocol error (bad magic; the client then closes, or stays connected and silent), oversized item followed by close, or (for a connection still waiting) giving up; plus idle-timeout scenarios (server timeout 1 s) in which served connections are left idle or stalled inside a header, a body or an oversized body, and a scenario in which a waiting connection outlives the receive timeout while the served one stays busy. After EVERY step a noop is outstanding on every open connection and the slot model is checked: exactly min(limit, open) connections have been answered (waited for without a deadline as a correctness signal: a shortfall is re-confirmed after a second 5 s wait), never more than limit, and every unanswered open connection shows positive evidence of not being served - its 24 request bytes are still unread in the server-side receive queue (FIONREAD on the accepted socket or rx_queue in /proc/net/tcp) and stay so over a 40 ms grace. At the end all connections are closed, `limit` fresh ones must all be served and one more must not. non-trivial = more than `limit` connections were open at some point and at least 4 different ending kinds were used";
+pub const RULE: &str = "proptest sequences of connection lifecycles against an in-process server with connection limit 1..4 (2-worker runtime, and current-thread runtime with 1..3 listener threads sharing the server on one port as in memcrsd's current-thread mode): Open steps (up to limit+3 connections open at once) and End steps ending a selected open connection by client close after a complete exchange, quit, quitq (the client then closes, or keeps its socket open after the server's end of stream, with or without a request pipelined behind the quit), close in the middle of a header, close in the middle of a body, abortive reset, protocol error (bad magic; the client then closes, or stays connected and silent), oversized item followed by close, or (for a connection still waiting) giving up; plus idle-timeout scenarios (server timeout 1 s) in which served connections are left idle or stalled inside a header, a body or an oversized body, and a scenario in which a waiting connection outlives the receive timeout while the served one stays busy. After EVERY step a noop is outstanding on every open connection and the slot model is checked: exactly min(limit, open) connections have been answered (waited for without a deadline as a correctness signal: a shortfall is re-confirmed after a second 5 s wait), never more than limit, and every unanswered open connection shows positive evidence of not being served - its 24 request bytes are still unread in the server-side receive queue (FIONREAD on the accepted socket or rx_queue in /proc/net/tcp) and stay so over a 40 ms grace. At the end all connections are closed, `limit` fresh ones must all be served and one more must not. non-trivial = more than `limit` connections were open at some point and at least 4 different ending kinds were used";
 pub const ASSUME: &[&str] = &[
     "which waiting connection is served next is not asserted",
     "the 40 ms over-serve grace can only miss, never alarm; the under-serve wait alarms only if the machine stalls for 5 s twice",
@@ -180,14 +180,21 @@ impl World {
         let wait = Duration::from_secs(5);
         match kind {
             0 => c.cl.close(),
-            1 => {
-                World::write_raw(&mut c, &wire::simple(wire::QUIT, 1).bytes());
+            1 | 2 => {
+                let mut b = wire::simple(if kind == 1 { wire::QUIT } else { wire::QUITQ }, 1).bytes();
+                if c.id % 4 == 2 {
+                    // requests pipelined behind the quit (never to be executed)
+                    b.extend_from_slice(&wire::simple(wire::NOOP, 6).bytes());
+                }
+                World::write_raw(&mut c, &b);
                 let _ = c.cl.read_to_eof(wait);
-                c.cl.close();
-            }
-            2 => {
-                World::write_raw(&mut c, &wire::simple(wire::QUITQ, 1).bytes());
-                let _ = c.cl.read_to_eof(wait);
+                if c.id % 2 == 0 {
+                    // the client has its answer and the end of stream but keeps its socket open: the slot is
+                    // returned by the server ending the connection, not by the client going away
+                    self.kinds_used.insert(15);
+                    self.zombies.push(c.cl);
+                    return format!("{}_client_keeps_socket_open", ENDINGS[kind as usize]);
+                }
                 c.cl.close();
             }
             3 => {
@@ -427,6 +434,7 @@ pub fn run_case(case: &C17Case) -> CaseReport {
                 9 => "idle_timeout".to_string(),
                 10..=13 => format!("idle_timeout_while_{}", ["idle", "mid_header", "mid_body", "mid_oversized_body"][(*k - 10) as usize]),
                 14 => "protocol_error_client_stays_connected".to_string(),
+                15 => "quit_client_keeps_socket_open".to_string(),
                 k => ENDINGS[k as usize].to_string(),
             }
         ));
